@@ -101,6 +101,15 @@ func (w *walker) call(c *ast.CallExpr) {
 			}
 		}
 	}
+	// a call through a function-valued field of the receiver (rr.WritePacketRTCP(...), rr.TimeNow()): a callback
+	if s, ok := c.Fun.(*ast.SelectorExpr); ok {
+		if id, ok := s.X.(*ast.Ident); ok && id.Name == w.recv && w.recv != "" {
+			if _, isMethod := w.methods[s.Sel.Name]; !isMethod {
+				w.emit("callback()")
+				return
+			}
+		}
+	}
 	// a call of a function value obtained by type assertion / variable: a callback
 	switch f := c.Fun.(type) {
 	case *ast.TypeAssertExpr:
@@ -291,6 +300,11 @@ func main() {
 		{"skel_ap_close", "internal/asyncprocessor", "Processor", "Close"},
 		{"skel_ap_start", "internal/asyncprocessor", "Processor", "Start"},
 		{"skel_ap_push", "internal/asyncprocessor", "Processor", "Push"},
+		// the RTCP report goroutines (C13): Close / run / the locking of report()
+		{"skel_recv_close", "pkg/rtpreceiver", "Receiver", "Close"},
+		{"skel_recv_run", "pkg/rtpreceiver", "Receiver", "run"},
+		{"skel_send_close", "pkg/rtpsender", "Sender", "Close"},
+		{"skel_send_run", "pkg/rtpsender", "Sender", "run"},
 	}
 	fmt.Println("(* GENERATED by tools/syncskel from /repo on every check run. Do not edit. *)")
 	fmt.Println("From Coq Require Import NArith List. Import ListNotations. Open Scope N_scope.")
